@@ -3,6 +3,7 @@ package main
 import (
 	"fmt"
 	"math/rand"
+	"runtime"
 	"sync/atomic"
 
 	"github.com/iotaledger/hive.go/runtime/workerpool"
@@ -22,10 +23,41 @@ type gatedCfg struct {
 	Restart    bool   `json:"restart"`     // Start again afterwards, submit, shut down again
 	PopSkip    int    `json:"pop_skip"`    // popwait: tasks dispatched before the dispatcher is parked at the gate
 	PushDuring bool   `json:"push_during"` // popwait: a Submit arrives while the dispatcher sits at the gate
+	Callback   string `json:"callback"`    // allbusy: what every task does after its gate opens: isrunning | submit | counter | all
+}
+
+// bigWorkerCounts: worker counts around the default (2*NumCPU); 0 = no WithWorkerCount option (the default).
+func bigWorkerCounts() []int {
+	n := runtime.NumCPU()
+	return []int{2*n - 1, 2 * n, 2*n + 1, 2*n + 5, 4 * n, 0}
+}
+
+// workerClass names the worker-count class relative to 2*NumCPU (evidence counters).
+func workerClass(w int) string {
+	n := 2 * runtime.NumCPU()
+	switch {
+	case w == 0:
+		return "default"
+	case w <= 4:
+		return "1-4"
+	case w < n:
+		return "below-2ncpu"
+	case w == n:
+		return "2ncpu"
+	default:
+		return "above-2ncpu"
+	}
+}
+
+func effWorkers(w int) int {
+	if w == 0 {
+		return 2 * runtime.NumCPU()
+	}
+	return w
 }
 
 func (g gatedCfg) key() string {
-	return fmt.Sprintf("%s/%s/w%d/c%v/p%d/%s/ft%v/sd%v/rs%v/ps%d/pd%v", g.Kind, g.Point, g.Workers, g.Cancel, g.Preload, g.Order, g.FromTask, g.Shutdown, g.Restart, g.PopSkip, g.PushDuring)
+	return fmt.Sprintf("%s/%s/w%d/c%v/p%d/%s/ft%v/sd%v/rs%v/ps%d/pd%v/cb%s", g.Kind, g.Point, g.Workers, g.Cancel, g.Preload, g.Order, g.FromTask, g.Shutdown, g.Restart, g.PopSkip, g.PushDuring, g.Callback)
 }
 
 // allGated enumerates the configuration space (deterministic order).
@@ -78,6 +110,41 @@ func allGated() []gatedCfg {
 			}
 		}
 	}
+	// worker counts around and above the default 2*NumCPU (reduced sub-space)
+	for _, w0 := range bigWorkerCounts() {
+		w := effWorkers(w0)
+		for _, cancel := range []bool{false, true} {
+			for _, pt := range []string{ptAfterCheck, ptBeforePush} {
+				for _, ft := range []bool{false, true} {
+					out = append(out, gatedCfg{Kind: "submit", Workers: w0, Cancel: cancel, Point: pt, Preload: 0, Order: "gate-first", FromTask: ft, Shutdown: true})
+					out = append(out, gatedCfg{Kind: "submit", Workers: w0, Cancel: cancel, Point: pt, Preload: w, Order: "tasks-first", FromTask: ft, Shutdown: true, Restart: true})
+				}
+			}
+			for _, skip := range []int{0, 1} {
+				out = append(out, gatedCfg{Kind: "popwait", Workers: w0, Cancel: cancel, Point: ptBeforeWait, Preload: skip, Order: "gate-first", Shutdown: true, PopSkip: skip, PushDuring: skip == 1})
+			}
+			out = append(out, gatedCfg{Kind: "drain", Workers: w0, Cancel: cancel, Preload: w + 2, Order: "tasks-first", Shutdown: true, Restart: true})
+			out = append(out, gatedCfg{Kind: "restart-nowait", Workers: w0, Cancel: cancel, Preload: w, Order: "tasks-first", Shutdown: true})
+			out = append(out, gatedCfg{Kind: "restart-nowait", Workers: w0, Cancel: cancel, Preload: 3*w + 2, Order: "tasks-first", Shutdown: true})
+		}
+	}
+	out = append(out, allBusy()...)
+	return out
+}
+
+// allBusy: every worker sits in a task held at a harness gate when Shutdown is
+// called; after its gate opens each task calls back into the pool.
+func allBusy() []gatedCfg {
+	var out []gatedCfg
+	for _, w0 := range append([]int{1, 2, 3, 4}, bigWorkerCounts()...) {
+		w := effWorkers(w0)
+		for _, cancel := range []bool{false, true} {
+			for _, cb := range []string{"isrunning", "submit", "counter", "all"} {
+				out = append(out, gatedCfg{Kind: "allbusy", Workers: w0, Cancel: cancel, Preload: w, Order: "tasks-first", Shutdown: true, Callback: cb})
+			}
+			out = append(out, gatedCfg{Kind: "allbusy", Workers: w0, Cancel: cancel, Preload: w + 3, Order: "tasks-first", Shutdown: true, Callback: "all", Restart: true})
+		}
+	}
 	return out
 }
 
@@ -90,8 +157,12 @@ func gatedList(rng *rand.Rand, quick bool) []gatedCfg {
 	}
 	seen := map[string]bool{}
 	var out []gatedCfg
+	for _, g := range allBusy() {
+		seen[g.key()] = true
+		out = append(out, g)
+	}
 	for _, g := range all {
-		k := fmt.Sprintf("%s/%s/%v/%v/%v/%d/%v/%v/%d", g.Kind, g.Point, g.Cancel, g.Shutdown, g.FromTask, min(g.Workers, 2), g.Preload > g.Workers, g.PushDuring, g.PopSkip)
+		k := fmt.Sprintf("%s/%s/%v/%v/%v/%d/%s/%v/%v/%d", g.Kind, g.Point, g.Cancel, g.Shutdown, g.FromTask, min(effWorkers(g.Workers), 2), workerClass(g.Workers), g.Preload > effWorkers(g.Workers), g.PushDuring, g.PopSkip)
 		if !seen[k] {
 			seen[k] = true
 			seen[g.key()] = true
@@ -99,7 +170,7 @@ func gatedList(rng *rand.Rand, quick bool) []gatedCfg {
 		}
 	}
 	for _, i := range rng.Perm(len(all)) {
-		if len(out) >= 400 {
+		if len(out) >= 560 {
 			break
 		}
 		if g := all[i]; !seen[g.key()] {
@@ -125,6 +196,8 @@ type gatedResult struct {
 	Steps    []string  `json:"steps"`
 	Findings []finding `json:"-"`
 	Inconcl  string    `json:"inconclusive,omitempty"`
+	AllBusy  bool      `json:"all_workers_busy_at_shutdown"`
+	Workers  int       `json:"effective_workers"`
 }
 
 // runGated executes one schedule. Every wait is structural (gdump); nothing
@@ -141,8 +214,12 @@ func runGated(cfg gatedCfg, preBlock func(outcome, []string)) (res gatedResult) 
 	curGate.Store(nil)
 	defer curGate.Store(nil)
 
-	pool := workerpool.New("probe", workerpool.WithWorkerCount(cfg.Workers), workerpool.WithCancelPendingTasksOnShutdown(cfg.Cancel))
+	pool := workerpool.New("probe", workerpool.WithCancelPendingTasksOnShutdown(cfg.Cancel))
+	if cfg.Workers > 0 {
+		pool = workerpool.New("probe", workerpool.WithWorkerCount(cfg.Workers), workerpool.WithCancelPendingTasksOnShutdown(cfg.Cancel))
+	}
 	obs := observe(pool)
+	res.Workers = pool.WorkerCount()
 	var tasks []*gtask
 	newTask := func(gated bool) *gtask {
 		t := &gtask{id: len(tasks)}
@@ -235,6 +312,34 @@ func runGated(cfg gatedCfg, preBlock func(outcome, []string)) (res gatedResult) 
 			sub.Start(func() { pool.Submit(body(t, nil)) })
 			waitQuiescent()
 			step("Submit issued while the dispatcher holds the stack mutex (submitter parked=%v)", sub.Busy())
+		}
+	case "allbusy":
+		for i := 0; i < cfg.Preload; i++ {
+			t := newTask(true)
+			child := newTask(false) // submitted from inside t after its gate opened (rejected once the pool is stopped)
+			cb := cfg.Callback
+			pool.Submit(body(t, func() {
+				if cb == "isrunning" || cb == "all" {
+					pool.IsRunning()
+				}
+				if cb == "counter" || cb == "all" {
+					pool.PendingTasksCounter.Get()
+				}
+				if cb == "submit" || cb == "all" {
+					pool.Submit(body(child, nil))
+				}
+			}))
+		}
+		gs0 := waitQuiescent()
+		p0 := patternOf(gs0, before)
+		res.AllBusy = p0.InTask == pool.WorkerCount()
+		step("%d gated task(s) with callback %q submitted to %d workers; %s", cfg.Preload, cfg.Callback, pool.WorkerCount(), p0)
+		if !res.AllBusy {
+			res.Inconcl = fmt.Sprintf("only %d of %d workers are busy before Shutdown", p0.InTask, pool.WorkerCount())
+			for _, t := range tasks {
+				openTask(t)
+			}
+			return
 		}
 	case "submit", "drain", "restart-nowait":
 		if cfg.FromTask {
